@@ -10,9 +10,9 @@ theorem decodeFuel_isSome_mono : ∀ (n : Nat) (b : Bytes), b.length ≤ n → (
     ∀ m, b.length ≤ m → (utf8DecodeFuel m b).isSome = true := by
   intro n b hn hv m hm
   have := decodeFuel_expand
-    { f := id, g := fun c => [c], nil := rfl, cons := fun _ _ => rfl,
-      ascii := fun c h x hx => by simp only [List.mem_singleton] at hx; subst hx; exact h,
-      high := fun _ _ => rfl } n b hn hv m hm
+    { f := id, g := fun c _ => [c], nil := rfl, cons := fun _ _ => rfl,
+      ascii := fun c _ h x hx => by simp only [List.mem_singleton] at hx; subst hx; exact h,
+      high := fun _ _ _ => rfl } n b hn hv m hm
   exact this
 
 theorem decodeOne_append {b0 : UInt8} {rest r : Bytes} {cp : Nat} (h : utf8DecodeOne (b0 :: rest) = some (cp, r))
